@@ -4,7 +4,7 @@
 Require Extraction.
 Require Import ExtrOcamlBasic.
 From MOC.Base Require Import RangeSet.
-From MOC.Model Require Import Qty Ops1D Query Expr Build Repr Serial ST STSerial TextValid Store MocSet Freq SetQuery.
+From MOC.Model Require Import Qty Ops1D Query Expr Build Repr Serial ST STSerial TextValid Store MocSet Freq SetQuery Neigh.
 Extraction Language OCaml.
 Extraction "moc_model.ml"
   RangeSet.covb RangeSet.canonb RangeSet.canon_of
@@ -23,4 +23,6 @@ Extraction "moc_model.ml"
   Store.exec Store.run Store.empty_slab
   MocSet.exec MocSet.extract MocSet.n_of_n128
   Freq.freq2hash Freq.hash2freq Freq.cell_of Freq.moc_of_values Freq.moc_of_ranges Freq.from_u64_idx
-  SetQuery.query SetQuery.query_pos SetQuery.union_query SetQuery.union_pos SetQuery.union_ids SetQuery.matches_floor.
+  SetQuery.query SetQuery.query_pos SetQuery.union_query SetQuery.union_pos SetQuery.union_ids SetQuery.matches_floor
+  Neigh.nb8 Neigh.nb4 Neigh.cells_of Neigh.expanded_spec Neigh.contracted_spec Neigh.ext_border_spec Neigh.int_border_spec
+  Neigh.split_okb Neigh.fill_okb Neigh.tf_expanded Neigh.tf_contracted.
